@@ -33,13 +33,23 @@ class D(Driver):
                     raise ex.CloudCorruptError("unreadable")
                 return _orig(oid, f)
             p.download = download
-        return w
+        w.vanish = {}       # content -> engine call sites of the step during which its last copy disappeared
+        w.hooks["key"] = lambda world: (tuple(sorted(world.vanish.items())),)
+        orig_step = w.step
 
-    def pre_step(self, w, a):
-        cor = w.opts.get("corrupt")
-        if cor:
-            return (len(w.engine_writes), w.all_contents_side(1 - cor["side"]) if hasattr(w, "all_contents_side") else None)
-        return None
+        def step(which):    # (inside the step, not in the monitor: it is part of the state key and must survive replays)
+            n, had = len(w.engine_writes), w.all_contents()
+            try:
+                orig_step(which)
+            finally:
+                if len(w.engine_writes) > n:
+                    have = w.all_contents()
+                    for c in had - have:
+                        w.vanish[c] = tuple(w.write_sites[n:])
+                    for c in have:
+                        w.vanish.pop(c, None)
+        w.step = step
+        return w
 
     def on_step(self, w, a, pre):
         vs = []
@@ -65,11 +75,12 @@ class D(Driver):
         base_contents = {b"1", b"2", b"3", b"4"}
         for c in sorted(must):
             if c not in have:
-                vs.append(viol("lost", c.decode("latin1"), {"trees": obs, "written_at": list(w.written[c])}))
+                vs.append(viol("lost", c.decode("latin1") + "@" + ",".join(w.vanish.get(c, ("never-copied",))),
+                               {"trees": obs, "written_at": list(w.written[c])}))
         # base content nobody destroyed must survive as well
         for c in sorted(w.base_contents - w.destroyed):
             if c not in have:
-                vs.append(viol("lost", c.decode("latin1"), {"trees": obs, "written_at": "base"}))
+                vs.append(viol("lost", c.decode("latin1") + "@" + ",".join(w.vanish.get(c, ("?",))), {"trees": obs, "written_at": "base"}))
         # conflict clause: 1+1 create/create or write/write on the same path, both versions required to survive
         sl, sr = w.scripts
         if len(sl) == 1 and len(sr) == 1 and sl[0][0] in ("create", "write") and sl[0][0] == sr[0][0] \
@@ -129,6 +140,17 @@ def jobs(tier):
                                 out.append({"prop": PROP, "cfg": cfg, "order": order, "base": "B1",
                                             "scripts": A.stamp(sc),
                                             "mode": {"k": 2, "cap": 1500, "depth": 70, "audit": 16}})
+    # replace family (base B3 = files a, b): one side removes or moves b away and puts something else at that name while the
+    # other side changes a or b; flavours with path ids on either side included, every interleaving
+    repl = [[["delete", "b"], ["rename", "a", "b"]], [["delete", "b"], ["create", "b"]], [["rename", "b", "c"], ["rename", "a", "b"]],
+            [["delete", "b"], ["mkdir", "b"]]]
+    others = [[["write", "b"]], [["write", "a"]], [["rename", "b", "e"]], [["delete", "b"]], [["delete", "a"]]]
+    for cfg in (["oo", "po", "pp", "op"] if tier == "quick" else ["oo", "po", "pp", "op", "ci", "pci"]):
+        for r in repl:
+            for o in others:
+                for sc in ([r, o], [o, r]):
+                    out.append({"prop": PROP, "cfg": cfg, "order": "asc", "base": "B3", "scripts": A.stamp(sc),
+                                "mode": {"k": None, "cap": 3000 if tier == "quick" else 12000, "depth": 70, "audit": 0}})
     # corrupt-read placements: version v on side s is unreadable
     cor_hists = [
         [[["write", "a"]], []], [[], [["write", "a"]]], [[["create", "c"]], []], [[], [["create", "c"]]],
